@@ -7,7 +7,7 @@ import itertools
 import numpy as np
 
 from contracts import specs_np as R
-from vt.executor import Undecided, Violation
+from vt.contract import Undecided, Violation
 
 
 def _entries(shape, mode, seed=0):
@@ -34,6 +34,10 @@ def _eq(got, exp, what):
     exp = np.asarray(exp)
     if got.shape != exp.shape:
         raise Violation("%s: shape %s, contract requires %s" % (what, got.shape, exp.shape))
+    if got.dtype != object and exp.dtype != object and (np.issubdtype(got.dtype, np.inexact) or np.issubdtype(exp.dtype, np.inexact)):
+        # sums of floats may be taken in a different order: tolerance 1e-9 (pure gathers are still exact)
+        if np.allclose(got, exp, atol=1e-9, rtol=1e-9):
+            return
     if not R.obj_equal(got, exp):
         bad = [(i, got[i], exp[i]) for i in np.ndindex(*got.shape) if not _same(got[i], exp[i])][:3]
         raise Violation("%s: entries differ from the contract, e.g. (index, got, required) %s" % (what, bad))
